@@ -11,7 +11,7 @@ import Driver.Value
 namespace Drv
 open Fit.Value Fit.Msg Fit.Validator
 
-def errName : Err → String
+private def errName : Err → String
   | .noFields => "err:no-fields" | .typeMismatch => "err:type" | .invalidUtf8 => "err:utf8" | .exceed => "err:exceed"
   | .missingDdi => "err:ddi" | .missingFd => "err:fd" | .protocolViolation => "err:protocol"
 
